@@ -87,7 +87,7 @@ func ruleC04R1(r *Run, le *LockEngine) {
 			// read under lock
 			if st := lit.Stores[field]; st != nil {
 				h := le.HeldAt(st)
-				r.Check(name+" ack."+field+" under lock", h[mu] == modeW, posOf(p, st), name, fmt.Sprintf("locks held: %v", h))
+				r.Check(name+" ack."+field+" under lock", le.ModeAtOrByCallers(st, mu) == modeW, posOf(p, st), name, fmt.Sprintf("locks held: %v", h))
 			}
 		}
 		// resets: measured from the read of each buffer that flows into the ack (not from the literal, so that
@@ -142,7 +142,11 @@ func ruleC04R1(r *Run, le *LockEngine) {
 			if resetIns != nil {
 				h = le.HeldAt(resetIns)
 			}
-			r.Check(name+" resets "+buf, okv && h[mu] == modeW, posOf(p, resetIns), name, fmt.Sprintf("replaced by a fresh container: %v; locks held at the reset: %v", okv, h))
+			okLock := h[mu] == modeW
+			if resetIns != nil && !okLock {
+				okLock = le.ModeAtOrByCallers(resetIns, mu) == modeW
+			}
+			r.Check(name+" resets "+buf, okv && okLock, posOf(p, resetIns), name, fmt.Sprintf("replaced by a fresh container: %v; locks held at the reset: %v", okv, h))
 		}
 		// stream alias and destination
 		if v, ok := lit.Fields["StreamIDAlias"]; ok {
@@ -217,6 +221,18 @@ func ruleC04R3(r *Run) {
 			pushes = append(pushes, ins)
 		}
 	})
+	if len(pushes) == 0 {
+		// the handling of a received chunk may be a method of its own whose results ReadDataPoints returns as they
+		// are (return d.acceptChunk(dps)): the rule is then about that method
+		if g := tailCallee(p, fn); g != nil {
+			fn = g
+			allInstrs(fn, func(ins ssa.Instruction) {
+				if _, ok := p.resetsField(ins, "/iscp.Downstream.resultAckBuffer"); ok {
+					pushes = append(pushes, ins)
+				}
+			})
+		}
+	}
 	r.Check(name+" single push", len(pushes) == 1 && !inLoop(pushes[0]), p.pos(fn.Pos()), name, fmt.Sprintf("%d push site(s) to resultAckBuffer in ReadDataPoints", len(pushes)))
 	if len(pushes) != 1 {
 		return
@@ -1037,4 +1053,59 @@ func isAtomicBoolMethod(c *ssa.CallCommon, method string) bool {
 		return false
 	}
 	return recvNamed(o) == "Bool"
+}
+
+// tailCallee: fn returns, on some path, exactly the results of a call to an unexported function of its package with
+// the same result types (return g(x)); that function, when there is exactly one such.
+func tailCallee(p *Prog, fn *ssa.Function) *ssa.Function {
+	var out []*ssa.Function
+	for _, ret := range returnsOf(fn) {
+		if len(ret.Results) == 0 {
+			continue
+		}
+		var call *ssa.Call
+		all := true
+		for i, rv := range retResults(ret) {
+			switch x := rv.(type) {
+			case *ssa.Extract:
+				c, ok := x.Tuple.(*ssa.Call)
+				if !ok || x.Index != i || (call != nil && c != call) {
+					all = false
+				} else {
+					call = c
+				}
+			case *ssa.Call:
+				if len(ret.Results) != 1 {
+					all = false
+				} else {
+					call = x
+				}
+			default:
+				all = false
+			}
+		}
+		if !all || call == nil {
+			continue
+		}
+		g := call.Call.StaticCallee()
+		if g == nil || !p.Analysed(g) || g.Pkg != fn.Pkg || (g.Object() != nil && g.Object().Exported()) {
+			continue
+		}
+		if !types.Identical(g.Signature.Results(), fn.Signature.Results()) {
+			continue
+		}
+		dup := false
+		for _, o := range out {
+			if o == g {
+				dup = true
+			}
+		}
+		if !dup {
+			out = append(out, g)
+		}
+	}
+	if len(out) == 1 {
+		return out[0]
+	}
+	return nil
 }
